@@ -1602,7 +1602,7 @@ func main() {
 		callSets := [][]string{{"list", "add", "remove", "close"}, {"close"}, {"remove-unknown", "list", "close", "close"}, {"add", "list"}, {"close", "list", "add", "remove"}}
 		n := 40
 		if thorough {
-			n = 400
+			n = 1500
 		}
 		for i := 0; i < n; i++ {
 			c := caps[rng.Intn(len(caps))]
@@ -1614,7 +1614,7 @@ func main() {
 	if has("closerace") {
 		n := 12
 		if thorough {
-			n = 150
+			n = 400
 		}
 		for i := 0; i < n; i++ {
 			cp, cl, tr := []uint{0, 1, 64}[rng.Intn(3)], 1+rng.Intn(4), rng.Intn(3) != 0
@@ -1628,11 +1628,17 @@ func main() {
 		}
 		guard("overflow-then-close", func() { overflowThenClose(rng, n) })
 	}
+	rounds := 1 // the families without a size parameter are repeated with fresh random draws in the thorough tier
+	if thorough {
+		rounds = 10
+	}
 	if has("closerace") || has("pending") {
-		for _, how := range []string{"move-tree-in", "mkdir-p", "move-then-rename"} {
-			how := how
-			guard("recursive", func() { recursiveScenario(rng, 0, how) })
-			guard("recursive", func() { recursiveScenario(rng, 4, how) })
+		for r := 0; r < rounds; r++ {
+			for _, how := range []string{"move-tree-in", "mkdir-p", "move-then-rename"} {
+				how := how
+				guard("recursive", func() { recursiveScenario(rng, 0, how) })
+				guard("recursive", func() { recursiveScenario(rng, uint(1+rng.Intn(8)), how) })
+			}
 		}
 	}
 	if has("react") {
@@ -1644,12 +1650,14 @@ func main() {
 		guard("recursive-react", func() { recursiveReact(rng, n/2, 8) })
 	}
 	if has("readerr") {
-		guard("readerr", func() { readError(rng, true) })
-		guard("readerr", func() { readError(rng, false) })
-		for _, c := range []uint{0, 2, 64} {
-			c := c
-			guard("late-errors", func() { lateErrorsConsumer(rng, c, 150*time.Millisecond, false) })
-			guard("late-errors", func() { lateErrorsConsumer(rng, c, 400*time.Millisecond, true) })
+		for r := 0; r < rounds; r++ {
+			guard("readerr", func() { readError(rng, true) })
+			guard("readerr", func() { readError(rng, false) })
+			for _, c := range []uint{0, 2, 64} {
+				c := c
+				guard("late-errors", func() { lateErrorsConsumer(rng, c, 150*time.Millisecond, false) })
+				guard("late-errors", func() { lateErrorsConsumer(rng, c, 400*time.Millisecond, true) })
+			}
 		}
 	}
 	if has("cycles") {
@@ -1662,30 +1670,32 @@ func main() {
 	if has("limit") {
 		guard("limit", instanceLimit)
 	}
-	if has("buffers") {
-		guard("buffers", func() { bufferSizes(rng) })
-	}
-	if has("absorb") {
-		for _, sz := range []uint{1, 2, 8, 64, 1024} {
-			sz := sz
-			guard("absorb", func() { absorb(rng, sz) })
+	for r := 0; r < rounds; r++ {
+		if has("buffers") {
+			guard("buffers", func() { bufferSizes(rng) })
 		}
-		for _, sz := range []uint{0, 1, 8, 64} {
-			sz := sz
-			guard("absorb-repeats", func() { absorbRepeats(rng, sz, false) })
-			guard("absorb-repeats", func() { absorbRepeats(rng, sz, true) })
+		if has("absorb") {
+			for _, sz := range []uint{1, 2, 8, 64, 1024} {
+				sz := sz
+				guard("absorb", func() { absorb(rng, sz) })
+			}
+			for _, sz := range []uint{0, 1, 8, 64} {
+				sz := sz
+				guard("absorb-repeats", func() { absorbRepeats(rng, sz, false) })
+				guard("absorb-repeats", func() { absorbRepeats(rng, sz, true) })
+			}
 		}
-	}
-	if has("others") {
-		for _, k := range []int{1, 3, 7} {
-			k := k
-			guard("others", func() { otherWatchers(rng, k) })
+		if has("others") {
+			for _, k := range []int{1, 2, 3, 5, 7} {
+				k := k
+				guard("others", func() { otherWatchers(rng, k) })
+			}
 		}
 	}
 	if has("api") {
 		n := 40
 		if thorough {
-			n = 600
+			n = 1500
 		}
 		for i := 0; i < n; i++ {
 			wk, tr := 2+rng.Intn(3), rng.Intn(2) == 0
